@@ -38,10 +38,11 @@ func c13Grammar(rng interface{ Intn(int) int }, n int) []string {
 		"evil.net\\@app.example.com", "evil.net?.example.com", "evil.net#.example.com", "evil.net/.example.com", "[::1]", "127.0.0.1", "xn--exmple-cua.com", "exаmple.com", ".example.com", "-example.com", "example.com-evil.net",
 		"notexample.com", "example.com@evil.net", "evil.net\t.example.com", "evil.net%09.example.com", "exam\tple.com", "example.org", "app.example.org", "other.test", "app.other.test", "evilother.test", "example.co", "com", "localhost"}
 	ports := []string{"", "", "", ":443", ":8443", ":0", ":99999", ":", ":80@evil.net", ":443\\@evil.net", ":x"}
-	paths := []string{"", "/", "/cb", "/cb/", "/a/../b", "/a/%2e%2e/b", "/..", "/.%2e/x", "/%2E%2E/x", "/a;b", "//evil.net", "/\\evil.net", "/cb/..", "/...", "/a..b", "/.well-known/x", "/cb%3Fx=1", "/\t../x"}
+	paths := []string{"", "/", "/cb", "/cb/", "/a/../b", "/a/%2e%2e/b", "/..", "/.%2e/x", "/%2E%2E/x", "/a;b", "//evil.net", "/\\evil.net", "/cb/..", "/...", "/a..b", "/.well-known/x", "/cb%3Fx=1", "/\t../x", "/a/..\\..\\b", "/cb/..\\x", "/a\\..\\b", "/a/.%2e\\b", "/a\\../b", "/..\\"}
 	tails := []string{"", "", "", "?x=1", "?", "#f", "#?x", "?redirect=https://evil.net", "#@evil.net", "\t", " ", "%20"}
 	pre := []string{"", "", "", "", " ", "\t", "\n", "\x00", " "}
 	out := []string{
+		"https://app.example.com/cb/..\\..\\userfiles/x.html", "https://www.example.com/a/..\\b", "https://app.other.test/x/..\\..\\y",
 		"https://app.example.com/cb", "https://example.com/", "https://evilexample.com/cb", "https://example.com.evil.net/cb",
 		"https://app.example.com/cb?x=1", "http://app.example.com/cb", "https://app.example.com/a/../cb", "https://evil.net/cb",
 		"https://app.example.com@evil.net/cb", "https://evil.net\\@app.example.com/cb", "https://evil.net#@app.example.com/cb",
